@@ -565,11 +565,12 @@ class RealPayloadDecoder(AbstractSimplePayloadDecoder):
                 if fo & 0x3 == 0x1:  # NR1
                     value = (int(chunk), 10, 0)
 
-                elif fo & 0x3 == 0x2:  # NR2
+                elif fo & 0x3 in (0x2, 0x3):  # NR2, NR3
                     value = float(chunk)
 
-                elif fo & 0x3 == 0x3:  # NR3
-                    value = float(chunk)
+                    if value != value or value in (float('inf'), float('-inf')):
+                        # float() also reads 'nan' and 'inf', ISO 6093 does not
+                        raise ValueError(chunk)
 
                 else:
                     raise error.SubstrateUnderrunError(
